@@ -86,6 +86,8 @@ type update struct {
 	err   error
 	// repush: a full update with the text of an earlier full update
 	repush bool
+	// delta: the rules an incremental update carries (order-independent description of the op)
+	delta verState
 }
 
 // genUpdate builds the next update against state cur.
@@ -140,6 +142,10 @@ func genUpdate(r *rand.Rand, tg *tagger, cur verState, kind updKind, earlier ...
 			rules = append(rules, ru)
 		}
 		u.text, u.after = textOf(rules, nil), st
+		u.delta = verState{}
+		for _, ru := range rules {
+			u.delta[ru.Name] = ru
+		}
 	case updRemoval:
 		st := cur.clone()
 		var present []string
@@ -175,6 +181,72 @@ func genUpdate(r *rand.Rand, tg *tagger, cur verState, kind updKind, earlier ...
 	}
 	return u
 }
+
+// applyModel is the sequential rule-set algebra: what an update does to a state.
+func applyModel(st verState, u *update) verState {
+	switch u.kind {
+	case updFull:
+		return u.after
+	case updIncremental:
+		n := st.clone()
+		for k, v := range u.delta {
+			n[k] = v
+		}
+		return n
+	case updRemoval:
+		n := st.clone()
+		for _, k := range u.names {
+			delete(n, k)
+		}
+		return n
+	}
+	return st
+}
+
+// linearizations enumerates the interleavings of two clients' successful updates that respect
+// real time (x before y whenever x returned before y was called).
+func linearizations(a, b []*update) [][]*update {
+	var out [][]*update
+	var rec func(i, j int, cur []*update)
+	rec = func(i, j int, cur []*update) {
+		if len(out) > 400 {
+			return
+		}
+		if i == len(a) && j == len(b) {
+			out = append(out, append([]*update{}, cur...))
+			return
+		}
+		if i < len(a) {
+			// a[i] may come next unless some remaining b returned before a[i] was called
+			ok := true
+			for _, y := range b[j:] {
+				if y.ret < a[i].call {
+					ok = false
+					break
+				}
+			}
+			if ok {
+				rec(i+1, j, append(cur, a[i]))
+			}
+		}
+		if j < len(b) {
+			ok := true
+			for _, x := range a[i:] {
+				if x.ret < b[j].call {
+					ok = false
+					break
+				}
+			}
+			if ok {
+				rec(i, j+1, append(cur, b[j]))
+			}
+		}
+	}
+	rec(0, 0, nil)
+	return out
+}
+
+func sigOf(st verState) string { return strings.Join(names(st), ",") }
 
 func apply(p *engine.GenginePool, u *update) error {
 	switch u.kind {
@@ -655,5 +727,267 @@ func RunC07(k *fw.Case) {
 		runProbe(k, k.Index)
 		return
 	}
+	if k.Index%3 == 0 {
+		runMixedHistory(k)
+		return
+	}
 	runHistory(k)
+}
+
+// ---- probe 3: two updaters issuing updates of ALL kinds concurrently ----
+//
+// The denoted state now depends on the serialisation order of the overlapping updates, which the
+// client boundary cannot see. The checker enumerates every interleaving of the two clients'
+// successful updates that respects real time and accepts an execution when SOME interleaving has
+// a cut, compatible with the execution's own call/return, whose state explains it. Executions
+// issued after both updaters have finished must be explained by the FINAL state of some
+// interleaving: a lost update (a removal or an incremental change that was overwritten by a
+// concurrent update although both calls returned nil) has no such explanation.
+func runMixedHistory(k *fw.Case) {
+	r := k.Rng
+	procs := []int{2, 4, 16}[r.Intn(3)]
+	prev := runtime.GOMAXPROCS(procs)
+	defer runtime.GOMAXPROCS(prev)
+	sz := [][2]int64{{1, 2}, {2, 3}, {2, 4}}[r.Intn(3)]
+	tg := &tagger{next: 100}
+	s0 := genUpdate(r, tg, verState{}, updFull)
+	sink := &c07Sink{shadow: NewShadow(), l: &lcg{s: uint64(r.Int63())}}
+	SetSink(sink)
+	defer SetSink(nil)
+	var p *engine.GenginePool
+	em := 1 + r.Intn(4)
+	if err := trace.CompileLocked(func() error {
+		var e error
+		p, e = engine.NewGenginePool(sz[0], sz[1], em, s0.text, nil)
+		return e
+	}); err != nil {
+		k.Inconclusive("history text does not compile: " + err.Error())
+		return
+	}
+	t := &trace.Target{Pool: p}
+	var seq int64
+	mk := func() []*update {
+		var l []*update
+		for j := 0; j < 3+r.Intn(2); j++ {
+			var u *update
+			switch r.Intn(7) {
+			case 0, 1:
+				u = genUpdate(r, tg, verState{}, updFull)
+			case 2, 3, 4:
+				u = genUpdate(r, tg, verState{}, updIncremental)
+				if r.Intn(2) == 0 {
+					// many rules: a long compile widens the window between reading the master set and publishing
+					for q := 0; q < 40; q++ {
+						nm := fmt.Sprintf("bulk%d", q)
+						ru := tg.rule(nm, int64(r.Intn(5)-2), "")
+						u.delta[nm] = ru
+						u.text += ruleText(ru, "")
+					}
+				}
+			case 5:
+				u = &update{kind: updRemoval}
+				for _, nm := range alphabet {
+					if r.Intn(3) == 0 {
+						u.names = append(u.names, nm)
+					}
+				}
+				u.names = append(u.names, "ghost")
+			default:
+				u = genUpdate(r, tg, verState{}, updFailing)
+			}
+			l = append(l, u)
+		}
+		return l
+	}
+	lists := [][]*update{mk(), mk()}
+	var stop int32
+	var uwg, ewg sync.WaitGroup
+	for ui := 0; ui < 2; ui++ {
+		uwg.Add(1)
+		list := lists[ui]
+		pause := time.Duration(50+r.Intn(400)) * time.Microsecond
+		go func() {
+			defer uwg.Done()
+			for _, u := range list {
+				time.Sleep(pause)
+				u.call = atomic.AddInt64(&seq, 1)
+				e := apply(p, u)
+				u.ret = atomic.AddInt64(&seq, 1)
+				u.err, u.ok = e, e == nil
+			}
+		}()
+	}
+	nExec := 3 + r.Intn(5)
+	recs := make([][]*execRec, nExec)
+	for ei := 0; ei < nExec; ei++ {
+		ewg.Add(1)
+		rr := rand.New(rand.NewSource(r.Int63()))
+		ei := ei
+		go func() {
+			defer ewg.Done()
+			after := 0
+			for n := 0; n < 200; n++ {
+				if atomic.LoadInt32(&stop) == 1 {
+					after++
+					if after > 4 {
+						return
+					}
+				}
+				c := genExecCall(rr)
+				c.EM = em
+				_, lg, data := reqObs()
+				c.Data = data
+				rec := &execRec{c: c}
+				rec.call = atomic.AddInt64(&seq, 1)
+				rec.out = t.Invoke(c, lg)
+				rec.ret = atomic.AddInt64(&seq, 1)
+				recs[ei] = append(recs[ei], rec)
+				if rr.Intn(3) == 0 {
+					time.Sleep(time.Duration(rr.Intn(150)) * time.Microsecond)
+				}
+			}
+		}()
+	}
+	uwg.Wait()
+	atomic.StoreInt32(&stop, 1)
+	if !waitDone(&ewg, 3*progressBound) {
+		k.Inconclusive("executors did not stop")
+		return
+	}
+	var succ [2][]*update
+	for ui, l := range lists {
+		for _, u := range l {
+			if u.ok != (u.kind != updFailing) {
+				k.Violate("update-"+updNames[u.kind]+"/error-nilness", fmt.Sprintf("%s update: returned error=%v", updNames[u.kind], u.err), map[string]interface{}{"text": trunc(u.text, 300), "names": u.names})
+				return
+			}
+			if u.ok {
+				succ[ui] = append(succ[ui], u)
+			}
+		}
+	}
+	lins := linearizations(succ[0], succ[1])
+	if len(lins) == 0 || len(lins) > 400 {
+		k.Inconclusive(fmt.Sprintf("%d interleavings of the updates: not checked", len(lins)))
+		return
+	}
+	type linStates struct {
+		ops    []*update
+		states []verState
+	}
+	var ls []linStates
+	for _, l := range lins {
+		st := []verState{s0.after}
+		cur := s0.after
+		for _, u := range l {
+			cur = applyModel(cur, u)
+			st = append(st, cur)
+		}
+		ls = append(ls, linStates{l, st})
+	}
+	total, post := 0, 0
+	for _, l := range recs {
+		for _, e := range l {
+			total++
+			cands := map[string]verState{}
+			for _, x := range ls {
+				lo, hi := 0, len(x.ops)
+				for i, u := range x.ops {
+					if u.ret < e.call && i+1 > lo {
+						lo = i + 1
+					}
+				}
+				for i, u := range x.ops {
+					if u.call > e.ret {
+						hi = i
+						break
+					}
+				}
+				for c := lo; c <= hi; c++ {
+					cands[sigOf(x.states[c])] = x.states[c]
+				}
+			}
+			isPost := true
+			for _, u := range append(append([]*update{}, succ[0]...), succ[1]...) {
+				if !(u.ret < e.call) {
+					isPost = false
+				}
+			}
+			if isPost {
+				post++
+			}
+			explained := false
+			var firstFs []trace.Finding
+			for _, st := range cands {
+				fs := explain(st, e.c, e.out)
+				if len(fs) == 0 {
+					explained = true
+					break
+				}
+				if firstFs == nil {
+					firstFs = fs
+				}
+			}
+			if explained {
+				continue
+			}
+			var es []string
+			for _, ev := range e.out.Events {
+				es = append(es, ev.String())
+			}
+			var cl []string
+			for sg := range cands {
+				cl = append(cl, sg)
+			}
+			sort.Strings(cl)
+			kind := "during-updates"
+			if isPost {
+				kind = "after-all-updates-returned"
+			}
+			msg := ""
+			if len(firstFs) > 0 {
+				msg = firstFs[0].Msg
+			}
+			var ops []string
+			for ui := range succ {
+				for _, u := range succ[ui] {
+					ops = append(ops, fmt.Sprintf("client%d %s [%d..%d] names=%v rules=%v", ui, updNames[u.kind], u.call, u.ret, u.names, names(u.delta)))
+				}
+			}
+			k.Violate("mixed-updates/"+kind+"/pool."+e.c.Method, fmt.Sprintf("pool.%s [seq %d..%d], %s: no interleaving of the concurrent updates (%d considered) has a state that explains this execution: %s", e.c.Method, e.call, e.ret, kind, len(lins), msg),
+				map[string]interface{}{"call": e.c, "events": strings.Join(es, " "), "result": fmt.Sprint(e.out.Result), "candidate_states": capStrings(cl, 12), "updates": ops, "initial": names(s0.after), "pool": fmt.Sprint(sz), "gomaxprocs": procs})
+			return
+		}
+	}
+	k.Eval(total)
+	k.Count("mixed_histories", 1)
+	k.Count("histories", 1)
+	k.Count("executions", int64(total))
+	k.Count("executions_after_all_updates", int64(post))
+	k.Count("interleavings_considered", int64(len(lins)))
+	k.Count("updates_successful", int64(len(succ[0])+len(succ[1])))
+	overl := 0
+	for _, a := range succ[0] {
+		for _, b := range succ[1] {
+			if a.call < b.ret && b.call < a.ret {
+				overl++
+			}
+		}
+	}
+	k.Count("pairs_of_overlapping_updates", int64(overl))
+	if overl > 0 {
+		k.Count("histories_with_overlap", 1)
+	}
+	k.Distinct("mixed", sz, len(lins), overl, total/20)
+	waitUntil(progressBound, func() bool {
+		_, sc, dn, _, _, _, _, _ := sink.shadow.Snapshot()
+		return dn >= sc
+	})
+}
+
+func capStrings(l []string, n int) []string {
+	if len(l) > n {
+		return l[:n]
+	}
+	return l
 }
